@@ -42,11 +42,33 @@ def gen_dec(wd):
         slicer.functions(DH, ["svt_dec_handle_ctor", "svt_av1_dec_deinit", "svt_dec_component_de_init"]))
 
 
+DP = "Source/Lib/Decoder/Codec/EbDecProcess.c"
+
+
+def gen_dec_mt(wd):
+    import os
+    from vlib import slicer
+    gen_dec(wd)
+    A = "    DecModCtxt **dec_mod_ctxt_arr;\n"
+    src = slicer.read(DP)
+    f = slicer.function(src, "dec_system_resource_init")
+    i = f.find("    /* Decode Library Threads */")
+    if i < 0:
+        raise RuntimeError("anchor not found in dec_system_resource_init")
+    tail = f[i:]
+    open(os.path.join(wd, "c15_dec_mt.inc"), "w").write(
+        "/* tail of dec_system_resource_init (EbDecProcess.c), verbatim */\nstatic EbErrorType mt_resources_tail(EbDecHandle *dec_handle_ptr, DecMtFrameData *dec_mt_frame_data) {\n    EbErrorType return_error = EB_ErrorNone;\n" + tail + "\n")
+
+
 def queries(tier):
     qs = C16.queries(tier, fail=0, prefix="nofail_")
     qs.append(Query(name="threads_created_are_joined", harness="C15/threads.c", gen=gen_threads, unwind=6, timeout=600,
                     funcs=[EH + ":svt_av1_enc_init (thread creation statements, extracted)", EH + ":svt_enc_handle_stop_threads"],
                     bound="every per-stage process count 0..3 independently", what="teardown joins exactly the threads init created"))
+    qs.append(Query(name="decoder_mt_resources_teardown", harness="C15/dec_mt_teardown.c", gen=gen_dec_mt, unwind=16, timeout=600, flags=["--slice-formula"],
+                    checks=["--unwinding-assertions", "--signed-overflow-check", "--undefined-shift-check", "--div-by-zero-check", "--bounds-check", "--pointer-check", "--memory-leak-check", "--drop-unused-functions", "--no-malloc-may-fail", "--trace"],
+                    funcs=[DP + ":dec_system_resource_init (thread-resource tail, sliced)", DH + ":svt_av1_dec_deinit", "Source/Lib/Decoder/Codec/EbDecMemInit.h:EB_MALLOC_DEC"],
+                    bound="2..3 decoder threads, first or repeated resource initialisation, stub thread/semaphore creation", what="every library allocation of the multi-thread resource set-up is released exactly once by deinit (no double free)"))
     for k in (0, 1, 2):
         qs.append(Query(name="decoder_teardown_after_%d_allocations" % k, harness="C15/dec_teardown.c", gen=gen_dec, defines=["K=%d" % k], unwind=6, timeout=600,
                         checks=["--unwinding-assertions", "--signed-overflow-check", "--undefined-shift-check", "--div-by-zero-check", "--bounds-check", "--pointer-check", "--memory-leak-check", "--drop-unused-functions", "--no-malloc-may-fail", "--trace"],
